@@ -14,7 +14,7 @@ def tyOf : String → Option Ty
   | "i8" => some (.int true 8) | "i16" => some (.int true 16) | "i32" => some (.int true 32)
   | "i64" => some (.int true 64) | "bool" => some .bool
   | "f32" => some (.float 32) | "f64" => some (.float 64)
-  | "string" => some (.string none) | "hstr8" => some (.string (some 8))
+  | "string" => some (.string none) | "hstr8" => some (.string (some 8)) | "hstr64" => some (.string (some 64))
   | "opti32" => some (.opt (.int true 32)) | "arr3i16" => some (.arr 3 (.int true 16))
   | "unit" => some .unit
   | "sstruct" => some (.struct [("a", .int false 8), ("b", .bool)])
@@ -126,7 +126,7 @@ partial def parseTree : List String → Option (Tree × List String)
 /-! ### gates -/
 
 inductive GMode where
-  | getFail | getMutFail | valFail | valReplace (k : Nat)
+  | getFail | getMutFail | valFail | valReplace (k : Nat) | valFailWith (msg : String)
 
 def parseGates (s : String) : Option (List (Nat × GMode)) :=
   if s = "-" then some [] else
@@ -148,6 +148,7 @@ def applyGate (a : Attrs) (g : Nat × GMode) : Attrs :=
   | .getMutFail => if a.getMut.isSome then { a with getMut := some (some s!"m{a.id % 8}") } else a
   | .valFail => if a.validate.isSome then { a with validate := some (.err s!"v{a.id % 8}") } else a
   | .valReplace k => if a.validate.isSome then { a with validate := some (.replace k) } else a
+  | .valFailWith msg => if a.validate.isSome then { a with validate := some (.err msg) } else a
 
 partial def applyGates (gs : List (Nat × GMode)) : Tree → Tree
   | .leaf k v => .leaf k v
